@@ -21,14 +21,14 @@ def run(ctx):
     ctx.rule("R1", "every allocation size is bounded by a constant cap or is a length of in-memory data")
     ctx.rule("R2", "every loop reachable from the reader API has a progress / bound argument")
     ctx.rule("R3", "both iterators yield only on the read < records edge, one increment per yield")
-    ctx.rule("R4", "Blob::read copies through take(self.length) and checks the count")
+    ctx.rule("R4", "Blob::read hands its output only to io::copy(reader.take(self.length), writer)")
     for cfg in ["lib", "lib_crc32c"]:
         prog, info = load_program(cfg, "e57")
         ctx.configs[cfg] = info
         ctx.cfg = cfg
         bound_rules.allocation_sizes(ctx, prog, "R1", "reader")
-        bound_rules.loop_progress(ctx, prog, "R2", "reader", floor=25)
+        bound_rules.loop_progress(ctx, prog, "R2", "reader", floor=12)
         pcw_rules.raw_reader_count(ctx, prog, "R3")
         pcw_rules.raw_reader_count(ctx, prog, "R3", path=simple_rules.IT, adt="pc_reader_simple::PointCloudReaderSimple", records=("pc", "records"))
-        blob_rules.read_protocol(ctx, prog, "R4")
+        blob_rules.read_bounded(ctx, prog, "R4")
     ctx.cfg = None
